@@ -450,3 +450,159 @@ class GetNextTasksUnbounded(Unit):
                     ctx.oblige("C19.gnt.sorted_any", res == "SORTED_OFFERS" and len(sorted_calls) == 1, None, info)
 
         ctx.eng.explore(thunk)
+
+
+# ================================================================================================
+# get_task: what one offer is rendered from
+# ================================================================================================
+class GetTask(Unit):
+    name = "C.get_task"
+    functions = ["orquesta.conducting.WorkflowConductor.get_task"]
+    obligations = {
+        "C06.get_task.context": {"props": ["C06", "C01", "C16"], "text":
+            "an offer is rendered with the task's initial context (the workflow's initial context when the task has none), plus __current_task = {id, route} and __state = the serialised state; the task spec rendered is a copy of the definition's spec for that task id; the offer carries that id, route, context, rendered spec and rendered actions"},
+        "C12.get_task.items_meta": {"props": ["C12"], "text":
+            "for a with-items task items_count is the number of rendered item actions and concurrency is the evaluated concurrency value of the spec whatever that value is (an absent one stays None; a literal 0 stays 0 and is not mistaken for an absent one); a plain task carries neither"},
+        "C13.get_task.delay": {"props": ["C13", "C11"], "text":
+            "a task delay, when given, is evaluated against the task context if it is a string, must then be an integer (TypeError otherwise) and is carried on the offer; no delay is carried when none is given"},
+    }
+    assumptions = [
+        "get_task_initial_context, WorkflowState.serialize, set_current_task, merge_dicts, TaskSpec.copy / render, expr_base.evaluate: through their contracts (set_current_task / merge_dicts add the named key to a copy; evaluate returns a non-string unchanged and an arbitrary value for a string)",
+        "all values (contexts, specs, actions, delay / concurrency values) are opaque or symbolic; no bound",
+    ]
+    trusted = ["z3 5.1", "pyvc interpreter"]
+
+    def splits(self, tier):
+        return [(has_items, delay, conc) for has_items in (False, True)
+                for delay in ("none", "zero", "int", "str->int", "str->other", "other")
+                for conc in (("none", "zero", "int", "str") if has_items else ("none",))]
+
+    def run_split(self, ctx, split):
+        has_items, delay_c, conc_c = split
+        from orquesta.expressions import base as expr_base
+        from orquesta.utils import context as ctx_util, dictionary as dict_util
+
+        def thunk(e):
+            info = {"has_items": has_items, "delay": delay_c, "concurrency": conc_c}
+            has_initial = e.branch(S.mk_bool("task_has_initial_context").z)
+            info["task_has_initial_context"] = has_initial
+            task_ctx0 = {"from": "task"}
+            wf_ctx0 = {"from": "workflow"}
+            calls = []
+
+            def gtic(eng, s_, tid, route):
+                calls.append(("gtic", tid, route))
+                if not has_initial:
+                    raise Raised(ValueError, ("Unable to determine context for task",))
+                return task_ctx0
+
+            def gwic(eng, s_):
+                calls.append(("gwic",))
+                return wf_ctx0
+
+            def set_current(eng, c_, task):
+                calls.append(("set_current", c_, task))
+                out = dict(c_); out["__current_task"] = task
+                return out
+
+            def merge(eng, l, r, overwrite=False):
+                calls.append(("merge", l, r, overwrite))
+                out = dict(l); out.update(r)
+                return out
+
+            n_actions = S.mk_int("n_actions")
+            e.assume(n_actions.z >= 0)
+            actions = S.SList(n_actions.z, lambda j: {"action": "a", "item_id": S.SInt(j)}, "action_specs") if has_items else [{"action": "a", "input": None}]
+            evaluated = {}
+
+            def evaluate(eng, expr, c_):
+                calls.append(("evaluate", expr, c_))
+                if not isinstance(expr, str):
+                    return expr
+                if expr == "<% delay %>":
+                    v = S.mk_int("delay_value") if delay_c == "str->int" else "not-an-int"
+                else:
+                    v = S.mk_int("conc_value")
+                evaluated[expr] = v
+                return v
+
+            delay_v = {"none": None, "zero": 0, "int": S.mk_int("delay_literal"), "str->int": "<% delay %>",
+                       "str->other": "<% delay %>", "other": 1.5}[delay_c]
+            if delay_c == "int":
+                e.assume(delay_v.z != 0)
+            conc_v = {"none": None, "zero": 0, "int": S.mk_int("conc_literal"), "str": "<% conc %>"}[conc_c]
+            rendered_spec = AbstractObj("rendered_spec", delay=delay_v, has_items=Stub("has_items", lambda eng: has_items),
+                                        **{"with": AbstractObj("with", concurrency=conc_v)})
+
+            def render(eng, c_):
+                calls.append(("render", c_))
+                return (rendered_spec, actions)
+            copied = AbstractObj("spec_copy", render=Stub("render", render))
+
+            def spec_get_task(eng, tid):
+                calls.append(("spec.get_task", tid))
+                def render_original(en, c_):
+                    calls.append(("render_uncopied", c_))
+                    return (rendered_spec, actions)
+                return AbstractObj("spec_of_task", copy=Stub("copy", lambda en: copied), render=Stub("render", render_original))
+            spec = AbstractObj("spec", tasks=AbstractObj("spec.tasks", get_task=Stub("get_task", spec_get_task)))
+            c, ws = cbase.new_conductor(st.RUNNING, spec=spec)
+            e.overrides[conducting.WorkflowConductor.get_task_initial_context] = gtic
+            e.overrides[conducting.WorkflowConductor.get_workflow_initial_context] = gwic
+            e.overrides[conducting.WorkflowState.serialize] = lambda eng, s_: {"serialized": True}
+            e.overrides[ctx_util.set_current_task] = set_current
+            e.overrides[dict_util.merge_dicts] = merge
+            e.overrides[expr_base.evaluate] = evaluate
+            tid, route = "t", S.mk_int("route")
+            raised = None
+            try:
+                task = e.call(conducting.WorkflowConductor.get_task, [c, tid, route], {})
+            except Raised as r:
+                raised = r
+            # ---- delay
+            if delay_c in ("str->other", "other"):
+                ctx.oblige("C13.get_task.delay", raised is not None and raised.cls is TypeError, None, dict(info, raised=repr(raised)))
+                ctx.canary()
+                return
+            if raised is not None:
+                for n in self.obligations:
+                    ctx.oblige(n, False, None, dict(info, raised=repr(raised)))
+                return
+            want_ctx = dict(task_ctx0 if has_initial else wf_ctx0)
+            want_ctx["__current_task"] = {"id": tid, "route": route}
+            want_ctx["__state"] = {"serialized": True}
+            got_ctx = task.get("ctx")
+            ok = isinstance(got_ctx, dict) and set(got_ctx) == set(want_ctx) and got_ctx["from"] == want_ctx["from"] \
+                and got_ctx["__state"] == {"serialized": True} and isinstance(got_ctx["__current_task"], dict) \
+                and got_ctx["__current_task"].get("id") == tid and got_ctx["__current_task"].get("route") is route
+            ok = ok and task.get("id") == tid and task.get("route") is route and task.get("spec") is rendered_spec \
+                and task.get("actions") is actions
+            ok = ok and [c_ for c_ in calls if c_[0] == "spec.get_task"] == [("spec.get_task", tid)]
+            rc = [c_ for c_ in calls if c_[0] == "render"]
+            ok = ok and len(rc) == 1 and rc[0][1] is got_ctx
+            ok = ok and (("gwic",) in calls) == (not has_initial)
+            # the definition's own spec object is never rendered (rendering resolves expressions in place)
+            ok = ok and not [c_ for c_ in calls if c_[0] == "render_uncopied"]
+            ctx.oblige("C06.get_task.context", ok, None, dict(info, keys=sorted(got_ctx) if isinstance(got_ctx, dict) else None))
+            if delay_c in ("none", "zero"):
+                ctx.oblige("C13.get_task.delay", "delay" not in task, None, info)
+            elif delay_c == "int":
+                ctx.oblige("C13.get_task.delay", task.get("delay") is delay_v, None, info)
+            else:
+                dcalls = [c_ for c_ in calls if c_[0] == "evaluate" and isinstance(c_[1], str) and c_[1] == "<% delay %>"]
+                ctx.oblige("C13.get_task.delay", task.get("delay") is evaluated.get("<% delay %>") and len(dcalls) == 1 and dcalls[0][2] is got_ctx, None, info)
+            if not has_items:
+                ctx.oblige("C12.get_task.items_meta", "items_count" not in task and "concurrency" not in task, None, info)
+            else:
+                cnt = task.get("items_count")
+                cnt_ok = e.zbool_of(e.sym_eq(cnt, n_actions)) if cnt is not None else False
+                want_conc = {"none": None, "zero": 0, "int": conc_v, "str": evaluated.get("<% conc %>")}[conc_c]
+                got_conc = task.get("concurrency", "missing")
+                conc_ok = (got_conc is want_conc) if conc_c != "zero" else (got_conc is not None and got_conc == 0 and not isinstance(got_conc, bool))
+                if conc_c == "str":
+                    ccalls = [c_ for c_ in calls if c_[0] == "evaluate" and isinstance(c_[1], str) and c_[1] == "<% conc %>"]
+                    conc_ok = conc_ok and len(ccalls) == 1 and ccalls[0][2] is got_ctx
+                ctx.oblige("C12.get_task.items_meta", z3.And(zb(cnt_ok), z3.BoolVal(bool(conc_ok))), None, dict(info, concurrency=repr(got_conc)))
+            ctx.canary()
+
+        ctx.eng.explore(thunk)
